@@ -180,6 +180,23 @@ func (E2EFaultEngine) Gen(prop, tier string, seed uint64, yield func(c any) bool
 			}
 		}
 	}
+	// targeted multi-step plans: 1-3 bare status words in a row followed by a replay of the last response delivered
+	// before them (the shape the read-size fallback ladder produces), at every exchange index
+	for _, ci := range use {
+		b := baselineFor(ci, cfgs[ci])
+		for k := 1; k < b.e; k++ {
+			for nk := 1; nk <= 3; nk++ {
+				var fs []term.Fault
+				for j := 0; j < nk; j++ {
+					fs = append(fs, term.Fault{At: k + j, Kind: "resp_status", A: []int{0x6700, 0x6A82, 0x6982}[(k+j)%3]})
+				}
+				fs = append(fs, term.Fault{At: k + nk, Kind: "resp_replay", A: -(nk + 1)})
+				if !yield(FaultCase{Config: ci, Faults: fs, Multi: true}) {
+					return
+				}
+			}
+		}
+	}
 	rng := core.NewRng(core.SubSeed(seed, "e2e-faults", tier))
 	n := 1500
 	if tier == "thorough" {
@@ -251,6 +268,7 @@ func (E2EFaultEngine) Run(prop string, ci any) *core.Outcome {
 	if r.Slog > 3000000 {
 		out.Violate("C11", "step-bound", sig+"/"+kinds, "%d logging steps in one read (fault-free scale: %d exchanges)", r.Slog, b.e)
 	}
+	smExchangeOracle(out, "C11", r)
 	if r.Doc == nil && r.Err == nil {
 		out.Violate("C11", "no-result", sig, "ReadDocument returned neither a document nor an error")
 	}
